@@ -971,3 +971,60 @@ def rule_cursor_advances_with_use(ctx):
             ctx.holds("USEADV", key, f.where(a_list[0][1]), "`%s` is advanced exactly in the arm(s) that record it as a data offset" % v, nontrivial=True)
     ctx.floor("USEADV", 1, n, "(record cursors stored as data offsets)")
     return n
+
+
+# ---------------------------------------------------------------------------------------------------------------------
+def rule_cursor_advanced_by_copy(ctx):
+    """CURSORADV (C05, C01): decoders and the buffered element keep a cursor into their buffer in a record field and copy with
+    `memcpy(dst, &buffer[cursor], n)` (or the other way round).  Behind each such copy, in the same block, the cursor is moved on
+    by exactly the n bytes that were copied — `cursor += n`.  A cursor that is *set* to n instead is right only for the first copy
+    out of a buffer; the third piecewise read of one buffered stretch returns bytes that were already delivered."""
+    prog = ctx.prog
+    n = 0
+    for f in prog.lib_funcs():
+        ast = f.raw.get("ast")
+        if not ast:
+            continue
+        written = {mem_field(x[2]) for _b, _i, _s, x in f.nodes(True) if x[0] == "asg" and mem_field(x[2])}
+        blocks = []
+        ast_walk(ast, lambda nd, st: (blocks.append(nd) if nd[0] == "block" else None, True)[1])
+        for b in blocks:
+            kids = b[1]
+            for i, k in enumerate(kids):
+                if k[0] != "s":
+                    continue
+                for c in calls_in(k[1], True):
+                    if c[1] not in ("memcpy", "memmove") or len(c[3]) < 3:
+                        continue
+                    for a in c[3][:2]:
+                        a = strip(a)
+                        cur = None
+                        if kind(a) == "addr" and kind(strip(a[1])) == "idx":
+                            cur = strip(strip(a[1])[2])
+                        elif kind(a) == "bin" and a[1] == "+":
+                            cur = strip(a[3])
+                        if cur is None or kind(cur) != "mem" or mem_field(cur) not in written:
+                            continue
+                        ln = render(strip(c[3][2]))
+                        n += 1
+                        key = "CURSORADV:%s:%s" % (f.name, cur[2])
+                        ok = False
+                        wrong = None
+                        for k2 in kids[i + 1:]:
+                            if k2[0] != "s":
+                                continue
+                            for x in walk(k2[1], True):
+                                if x[0] == "asg" and mem_field(x[2]) == mem_field(cur):
+                                    if x[1] == "+=" and render(strip(x[3])) == ln:
+                                        ok = True
+                                    elif wrong is None:
+                                        wrong = render(x)
+                            if ok or wrong:
+                                break
+                        if ok:
+                            ctx.holds("CURSORADV", key, f.where(node_line(k)), "`%s` is advanced by the `%s` bytes just copied" % (render(cur), ln), nontrivial=True)
+                        else:
+                            ctx.violated("CURSORADV", key, f.where(node_line(k)), "after copying `%s` bytes through `%s` the cursor is %s: the next copy out of this buffer does not start behind the bytes already delivered" %
+                                         (ln, render(cur), ("changed by `%s`" % wrong[:60]) if wrong else "not advanced"))
+    ctx.floor("CURSORADV", 4, n, "(copies through a cursor field)")
+    return n
